@@ -479,7 +479,7 @@ class Sim(object):
             if any(x is a for a in ctx.reach):
                 self.count('probe.result_is_argument')
                 self.alias_names[op['name']] = self.alias_names.get(op['name'], 0) + 1
-                if not eff.startswith('mutator') and op['name'].split('#')[0] not in PASS_THROUGH:
+                if not eff.startswith('mutator') and op['name'].split('#')[0].split('@')[0] not in PASS_THROUGH:
                     # O3.alias: a non-mutating call handed one of its own arguments back as (part of) its
                     # result: result and argument are one mutable object, so a documented mutator applied to
                     # either silently changes the other (same defect class as a cache handing out a shared
